@@ -710,6 +710,13 @@ def _first_detached(top):
             if m.name != name:
                 return f"{path}.{name}: member is named {m.name!r}"
             if not m.is_alias:
+                # overload lists live on functions, overload tables (name -> list) on modules and classes
+                ov = getattr(m, "overloads", None)
+                if m.kind.value in ("module", "class") and not isinstance(ov, dict):
+                    return f"{path}.{name}: a {m.kind.value} carries {type(ov).__name__} as its overloads table"
+                if m.kind.value == "function" and not (ov is None or isinstance(ov, list)):
+                    return f"{path}.{name}: a function carries {type(ov).__name__} as its overloads"
+            if not m.is_alias:
                 r = rec(m, f"{path}.{name}")
                 if r:
                     return r
